@@ -149,6 +149,34 @@ prop('C08', src='props/c08_prefix.cpp',
      technique='exhaustive enumeration of token variants per word + property-based testing of mixed phrases (rapidcheck), against an index-free reference matcher',
      level_text='Every word of every list is enumerated with all prefix lengths, accent subsets and both normalisation forms against a reference matcher written from the property text; mixtures over 16 positions are sampled. Exploration with an exhaustive single-token core.')
 
+FUZZ_ASSUME = ['libFuzzer campaigns are only approximately pinned by -seed/-runs (coverage feedback and corpus order); the saved artifact is the reproducible unit']
+
+prop('C09', src='props/c09_detect.cpp', src_by_variant={'fuzz': 'fuzz/fuzz_api.cpp'}, engine='rapidcheck + libFuzzer',
+     plan={'quick': [{'variant': 'asan', 'workers': 16}, {'variant': 'fuzz', 'workers': 16, 'fuzz': True, 'runs': {'quick': 40000, 'thorough': 2500000}}],
+           'thorough': [{'variant': 'asan', 'workers': 16}, {'variant': 'fuzz', 'workers': 16, 'fuzz': True, 'runs': {'quick': 40000, 'thorough': 2500000}, 'timeout': 14400}]},
+     rule='rapidcheck: (1) library phrases of every language put through 0-3 mutations (separator doubled/leading/trailing/replaced by ideographic, NBSP, tab, em space or nothing; token deleted, duplicated, emptied, abbreviated, suffixed, swapped, substituted, taken from another language; 17th token; other coin); '
+          '(2) ambiguity builders: all 16 tokens accepted by two languages (both Chinese lists; shared 4-letter stems and words of en/es/fr/it/cs/pt), check word aimed at the first, the second or neither; (3) arbitrary Unicode, raw bytes, 13-18-word soups. '
+          'libFuzzer: the same oracle in-process on byte-decoded inputs (raw string | word-level phrase description with mutations | password | 32-byte buffer), half of the workers from the committed seed corpus, half from an empty one. '
+          'Oracle: with E[l] = decode_explicit(s, coin, l) and R = {l: E[l] not in {NUM_WORDS, LANG}}: decode = NUM_WORDS iff any (then every) E[l] is; LANG iff R empty; MULT_LANG iff |R| >= 2; else E[l] with that language and equal store bytes; '
+          'NUM_WORDS iff the reference tokenizer (single U+0020 after NFKD, one trailing empty token dropped) does not give 16 tokens (strings whose NFKD form fits the buffer); an empty token is a language error; with every allocation failing only would-be OK/UNSUPPORTED outcomes become MEMORY. '
+          'Non-trivial = |R| >= 1 or 15-17 tokens; distinct = fingerprint of (string, coin).',
+     required_classes={'any': ['R=>=2/MULT_LANG', 'R=1/OK', 'R=1/CHECKSUM', 'R=0/LANG', 'R=0/NUM_WORDS', 'R>=2 with differing checksum verdicts', 'tokens:15', 'tokens:17', 'with-allocation-failure', 'gen:ambiguous:valid-in-first', 'gen:ambiguous:valid-in-second', 'mode:structured-phrase', 'mode:raw-string']},
+     assumptions=FUZZ_ASSUME,
+     technique='property-based differential testing (rapidcheck: auto-detection vs explicit decoding in every language, reference tokenizer) + coverage-guided fuzzing (libFuzzer, ASan+UBSan) with the same oracle inside the target',
+     level_text='The relation between the two decoders, the status precedence and the token-boundary rule are checked on every generated and fuzzed string; ambiguity builders make the multi-language outcomes common. Exploration over an infinite input space.')
+
+prop('C14', src='props/c14_safety.cpp', src_by_variant={'fuzz': 'fuzz/fuzz_api.cpp'}, engine='libFuzzer + rapidcheck',
+     plan={'quick': [{'variant': 'fuzz', 'workers': 16, 'fuzz': True, 'runs': {'quick': 50000, 'thorough': 4000000}}, {'variant': 'asan', 'workers': 16}],
+           'thorough': [{'variant': 'fuzz', 'workers': 16, 'fuzz': True, 'runs': {'quick': 50000, 'thorough': 4000000}, 'timeout': 14400}, {'variant': 'asan', 'workers': 16}]},
+     rule='libFuzzer (clang 14, ASan+UBSan, library assertions on): bytes decoded into (mode, coin, normaliser strict|lenient, allocation-failure switch, enabled mask) and a raw string | a word-level phrase description with 0-4 mutations (separators, deleted/duplicated/foreign/emptied/truncated tokens, 600-byte tokens, 200 combining accents) | a password | a 32-byte buffer; half the workers start from the committed seed corpus, half from nothing. '
+          'rapidcheck grammar: strings whose raw or NFKD length is POLYSEED_STR_SIZE-3..+3 in eight shapes (ASCII padding, no-space run, accents after a stem, many short tokens, multi-byte padding, separators only, stray high bytes at the end, non-ASCII beyond the limit), random byte strings, word soups with stray bytes, 32-byte buffers; phrases and passwords. '
+          'Oracle: no sanitizer report, assertion or signal; every status is documented for that function; the input (in an exactly-sized heap block) is unchanged; after a failed call no block is allocated, after success exactly one, gone after free; crypt leaves a loadable seed and passes <= POLYSEED_STR_SIZE-1 password bytes to the KDF; each input finishes (30 s hang guard, re-run alone 3x before it counts). '
+          'Non-trivial = reaches word lookup (>= 16 tokens) or length within 8 of the buffer size or a byte >= 0x80; distinct = fingerprint of the input.',
+     required_classes={'any': ['raw-length-within-8-of-buffer-size', 'nfkd-length-within-8-of-buffer-size', 'normaliser-truncated', 'password', 'load:OK', 'load:FORMAT', 'load:MEMORY', 'mode:structured-phrase', 'mode:raw-string', 'mode:password', 'length-near-buffer-size', 'invalid-utf8']},
+     assumptions=FUZZ_ASSUME + ['"terminates" is decided as a per-input time bound, not a termination proof'],
+     technique='coverage-guided fuzzing (libFuzzer + ASan + UBSan, structure-aware byte decoding) + property-based grammar of boundary-length strings (rapidcheck); safety/totality oracle in-process',
+     level_text='Sanitised, assertion-enabled builds are driven by coverage-guided fuzzing and a boundary-length grammar; every call is judged for memory safety, status range, input immutability and allocator balance. Exploration: no absence proof.')
+
 NOT_APPLICABLE = {}
 MANIFEST_NOTES = 'All checks: ./check run <ID> --tier quick|thorough; VERIF_SEED selects the generator seed; evidence in /verif/evidence/<ID>.json; replay files under /verif/replays/<ID>/; committed regression cases under /verif/regress/<ID>/. See DESIGN.md.'
 for _p in ['C%02d' % i for i in range(1, 21)]:
